@@ -3,6 +3,8 @@ package main
 // Symbolic values and the mapping from Go types to SMT components.
 
 import (
+	"sort"
+	"hash/fnv"
 	"fmt"
 	"go/types"
 	"math/big"
@@ -465,22 +467,66 @@ var errPtrTags []*Term
 // ---- dynamic type tags ----
 
 type tagReg struct {
-	ids   map[string]int
-	types []types.Type
+	ids    map[string]int
+	types  []types.Type // dense ids 1..len(types): numbered up front in sorted order (engine load)
+	late   map[int]types.Type
+	frozen bool // after engine load: further types get a content-derived id
 }
 
-var tags = &tagReg{ids: map[string]int{}}
+var tags = &tagReg{ids: map[string]int{}, late: map[int]types.Type{}}
 
+// id: types numbered at engine load have small dense ids; a type first met during symbolic execution gets an
+// id derived from its name (so that the generated queries do not depend on the order of exploration).
 func (r *tagReg) id(t types.Type) int {
 	t = canonType(t)
 	k := types.TypeString(t, nil)
 	if id, ok := r.ids[k]; ok {
 		return id
 	}
-	r.types = append(r.types, t)
-	id := len(r.types)
+	return r.register(k, t)
+}
+
+func (r *tagReg) register(k string, t types.Type) int {
+	if !r.frozen {
+		r.types = append(r.types, t)
+		id := len(r.types)
+		r.ids[k] = id
+		return id
+	}
+	h := fnv.New32a()
+	h.Write([]byte(k))
+	id := 1000000 + int(h.Sum32()%900000000)
+	for r.late[id] != nil {
+		id++ // collision between two late types (astronomically rare): next free id
+	}
+	r.late[id] = t
 	r.ids[k] = id
 	return id
+}
+
+func (r *tagReg) typeOf(id int) types.Type {
+	if id >= 1 && id <= len(r.types) {
+		return r.types[id-1]
+	}
+	return r.late[id]
+}
+
+// all returns every registered (id, type) in increasing id order.
+func (r *tagReg) all() (ids []int, ts []types.Type) {
+	for i, t := range r.types {
+		ids = append(ids, i+1)
+		ts = append(ts, t)
+	}
+	var lateIDs []int
+	for id := range r.late {
+		lateIDs = append(lateIDs, id)
+	}
+	sort.Ints(lateIDs)
+	for _, id := range lateIDs {
+		ids = append(ids, id)
+		ts = append(ts, r.late[id])
+	}
+	return
 }
 
 func tagTerm(t types.Type) *Term { return IntLit(int64(tags.id(t))) }
